@@ -261,7 +261,13 @@ pub fn damage(r: &mut Rng, doc: &[u8]) -> Vec<u8> {
             continue;
         }
         let i = r.below(d.len());
-        match r.below(9) {
+        match r.below(10) {
+            9 => {
+                // write an attribute of some start tag a second time (the reader reports a duplicated attribute)
+                if let Some(x) = duplicate_attribute(r, &d) {
+                    d = x;
+                }
+            }
             0 => d.truncate(i),
             1 => d[i] ^= 1 << r.below(8),
             2 => d.insert(i, *r.pick(SPECIAL)),
@@ -287,6 +293,94 @@ pub fn damage(r: &mut Rng, doc: &[u8]) -> Vec<u8> {
         }
     }
     d
+}
+
+/// `<e a="1" b="2">` -> `<e a="1" b="2" a="dup">` for a random start tag that has attributes
+fn duplicate_attribute(r: &mut Rng, d: &[u8]) -> Option<Vec<u8>> {
+    let mut tags: Vec<(usize, usize)> = Vec::new(); // (position of the attribute name, position of the closing > or />)
+    let mut i = 0;
+    while i < d.len() {
+        if d[i] == b'<' && i + 1 < d.len() && (d[i + 1].is_ascii_alphabetic() || d[i + 1] == b'_') {
+            let mut j = i + 1;
+            let mut quote: Option<u8> = None;
+            let mut first_attr: Option<usize> = None;
+            while j < d.len() {
+                match (quote, d[j]) {
+                    (Some(q), c) if c == q => quote = None,
+                    (Some(_), _) => {}
+                    (None, b'"') | (None, b'\'') => quote = Some(d[j]),
+                    (None, b'>') => break,
+                    (None, c) if c.is_ascii_whitespace() && first_attr.is_none() && j + 1 < d.len() && !d[j + 1].is_ascii_whitespace()
+                        && d[j + 1] != b'>' && d[j + 1] != b'/' => first_attr = Some(j + 1),
+                    _ => {}
+                }
+                j += 1;
+            }
+            if let (Some(a), true) = (first_attr, j < d.len()) {
+                let end = if j > 0 && d[j - 1] == b'/' { j - 1 } else { j };
+                tags.push((a, end));
+            }
+            i = j;
+        }
+        i += 1;
+    }
+    if tags.is_empty() {
+        return None;
+    }
+    let (a, end) = tags[r.below(tags.len())];
+    let name_end = (a..end).find(|k| d[*k] == b'=' || d[*k].is_ascii_whitespace())?;
+    let mut out = d[..end].to_vec();
+    out.push(b' ');
+    out.extend_from_slice(&d[a..name_end]);
+    out.extend_from_slice(b"=\"dup\"");
+    out.extend_from_slice(&d[end..]);
+    Some(out)
+}
+
+/// Documents for the struct-name hints: the same struct-bearing element `d` at the end of three different ancestor
+/// paths below the root (paths drawn from a small pool so that nearest parents coincide while grandparents differ, in
+/// every document order). `which` enumerates the ordered choices.
+pub fn hint_paths_doc(which: usize) -> Vec<u8> {
+    const PATHS: &[&[&str]] = &[&["b"], &["c"], &["e", "b"], &["e", "c"], &["f", "b"], &["b", "c"], &["e", "f", "b"]];
+    let n = PATHS.len();
+    let (i, j, k) = (which % n, (which / n) % n, (which / (n * n)) % n);
+    let mut chosen: Vec<&[&str]> = Vec::new();
+    for x in [i, j, k] {
+        if !chosen.contains(&PATHS[x]) {
+            chosen.push(PATHS[x]);
+        }
+    }
+    // a trie in first-appearance order
+    #[derive(Default)]
+    struct T { kids: Vec<(String, T)>, leaf: bool }
+    let mut root = T::default();
+    for p in &chosen {
+        let mut cur = &mut root;
+        for seg in p.iter() {
+            let pos = match cur.kids.iter().position(|(n, _)| n == seg) {
+                Some(x) => x,
+                None => { cur.kids.push((seg.to_string(), T::default())); cur.kids.len() - 1 }
+            };
+            cur = &mut cur.kids[pos].1;
+        }
+        cur.leaf = true;
+    }
+    fn ser(t: &T, out: &mut String, n: &mut usize) {
+        if t.leaf {
+            *n += 1;
+            out.push_str(&format!("<d><x>t{:03}</x></d>", n));
+        }
+        for (name, k) in &t.kids {
+            out.push_str(&format!("<{}>", name));
+            ser(k, out, n);
+            out.push_str(&format!("</{}>", name));
+        }
+    }
+    let mut out = String::from("<a>");
+    let mut cnt = 0;
+    ser(&root, &mut out, &mut cnt);
+    out.push_str("</a>");
+    out.into_bytes()
 }
 
 /// Sizes at which a fixed-width counter, bit set, recursion guard or small-buffer optimisation would change its
